@@ -144,6 +144,7 @@ pub open spec fn prepend_kind(sp: Span, lhs: Expression, rhs: Expression) -> Opt
         _ => None,
     }
 }
+pub open spec fn pfields_shape(fs: Seq<(String, Expression)>) -> bool { forall|i: int| 0 <= i < fs.len() ==> pe_shape((#[trigger] fs[i]).1) }
 /// right operand of a binary node
 pub open spec fn rhs_of(e: Expression) -> Expression {
     match e.kind {
@@ -318,28 +319,68 @@ impl Next for Prec {
 //@   endspec
 //@ end
 //@ fn sylt-parser/src/expression.rs if_expression
-//@   mode assumed
+//@   props C07 C13
+//@   attr #[verifier::exec_allows_no_decreases_clause]
 //@   ret r
 //@   spec
-        ensures r is Ok ==> wf(r->Ok_0.1) && top_rank(r->Ok_0.1) == 100,
-        r is Ok ==> pe_shape(r->Ok_0.1),
+        ensures r is Ok ==> wf(r->Ok_0.1) && top_rank(r->Ok_0.1) == 100, //# C13 if_expression.atom
+        r is Ok ==> pe_shape(r->Ok_0.1), //# C07 if_expression.result_has_a_branch_and_shape
 //@   endspec
+//@   loop 1
+        invariant
+            branches@.len() >= 1, forall|i: int| 0 <= i < branches@.len() ==> pib_shape(#[trigger] branches@[i]), //# C07 if_expression.loop.at_least_one_branch_all_shaped
+//@   endloop
+//@   ghost before
+//@| branches.push(IfBranch { span, condition: None, body });
+        let ghost before_else = branches@;
+//@   endghost
+//@   ghost after
+//@| branches.push(IfBranch { span, condition: None, body });
+        proof {
+            assert forall|i: int| 0 <= i < branches@.len() implies pib_shape(#[trigger] branches@[i]) by {
+                if i < before_else.len() { assert(branches@[i] == before_else[i]); }
+            }
+        }
+//@   endghost
 //@ end
 //@ fn sylt-parser/src/expression.rs case_expression
-//@   mode assumed
+//@   props C07 C13
+//@   attr #[verifier::exec_allows_no_decreases_clause]
 //@   ret r
 //@   spec
-        ensures r is Ok ==> wf(r->Ok_0.1) && top_rank(r->Ok_0.1) == 100,
-        r is Ok ==> pe_shape(r->Ok_0.1),
+        ensures r is Ok ==> wf(r->Ok_0.1) && top_rank(r->Ok_0.1) == 100, //# C13 case_expression.atom
+        r is Ok ==> pe_shape(r->Ok_0.1), //# C07 case_expression.result_shape
 //@   endspec
+//@   loop 1
+        invariant
+            pe_shape(*to_match), forall|i: int| 0 <= i < branches@.len() ==> pcb_shape(#[trigger] branches@[i]), //# C07 case_expression.loop.arms_shaped
+//@   endloop
 //@ end
 //@ fn sylt-parser/src/expression.rs blob
+//@   props C07 C13
+//@   attr #[verifier::exec_allows_no_decreases_clause]
+//@   ret r
+//@   spec
+        ensures r is Ok ==> wf(r->Ok_0.1) && top_rank(r->Ok_0.1) == 100, //# C13 blob.atom
+        r is Ok ==> pe_shape(r->Ok_0.1), //# C07 blob.result_shape
+//@   endspec
+//@   loop 1
+        invariant
+            pfields_shape(fields@), //# C07 blob.loop.fields_shaped
+//@   endloop
+//@ end
+//@ fn sylt-parser/src/statement.rs block
 //@   mode assumed
 //@   ret r
 //@   spec
-        ensures r is Ok ==> wf(r->Ok_0.1) && top_rank(r->Ok_0.1) == 100,
-        r is Ok ==> pe_shape(r->Ok_0.1),
+        ensures r is Ok ==> pall_shape(r->Ok_0.1@),
 //@   endspec
+//@ end
+//@ fn sylt-parser/src/parser.rs parse_type
+//@   mode assumed
+//@ end
+//@ fn sylt-parser/src/parser.rs is_capitalized
+//@   mode assumed
 //@ end
 //@ fn sylt-parser/src/parser.rs type_assignable
 //@   mode assumed
